@@ -99,7 +99,7 @@ mut('C08', 'embedded-error-bcast-root-0', CC + 'estimate_embedded_error.py', 're
 mut('C08', 'base-transfer-Rcoll-transposed', TR + 'BaseTransferMPI.py', 'CF.Reduce(self.Rcoll[n, CF.rank] * tmp_u, recvBuf[CG.rank], root=n, op=MPI.SUM)', 'CF.Reduce(self.Rcoll[CF.rank, n] * tmp_u, recvBuf[CG.rank], root=n, op=MPI.SUM)', expect='equivalent: base_transfer_MPI requires the same number of nodes on both levels, so Rcoll is the identity')
 mut('C08', 'base-transfer-prolong-no-feval', TR + 'BaseTransferMPI.py', '        F.f[CF.rank + 1] = PF.eval_f(F.u[CF.rank + 1], F.time + F.dt * SF.coll.nodes[CF.rank])\n', '')
 mut('C08', 'mpi-restart-ignores-budget', CC + 'basic_restarting.py', 'S.status.restart = (S.status.restart or self.buffers.restart_earlier) and not self.buffers.max_restart_reached', 'S.status.restart = S.status.restart or self.buffers.restart_earlier')
-mut('C08', 'revert-F27-from-first-budget', CC + 'basic_restarting.py', 'max_restart_reached = comm.bcast(S.status.restarts_in_a_row >= self.params.max_restarts, root=0)', 'max_restart_reached = comm.bcast(S.status.restarts_in_a_row > self.params.max_restarts, root=0)', expect='detect in the thorough tier (needs restart_from_first_step, all_to_done and three consecutive requests; found at seed 3 thorough); the quick tier rarely reaches it')
+mut('C08', 'revert-F27-from-first-budget', CC + 'basic_restarting.py', 'max_restart_reached = comm.bcast(S.status.restarts_in_a_row >= self.params.max_restarts, root=0)', 'max_restart_reached = comm.bcast(S.status.restarts_in_a_row > self.params.max_restarts, root=0)')  # the generators reach this rarely (found at seed 3 thorough); the kept replay of F27 is re-run in every tier
 mut('C08', 'mpi-dtmax-minus-dt', CC + 'spread_step_sizes.py', 'dt_max = comm.bcast((Tend - time) / size, root=restart_at)', 'dt_max = comm.bcast((Tend - time - S.dt) / size, root=restart_at)')
 mut('C08', 'status-send-without-wait', CC + 'check_convergence.py', '            controller.wait_with_interrupt(request=controller.req_status)\n            if S.status.force_done:\n                return None\n', '', expect='equivalent: controller.req_status is never assigned (the status Isend request is dropped), so the wait is a no-op')
 # ---------------------------------------------------------------------------------------------------------------- C09
